@@ -28,6 +28,13 @@
 //                 payload_size_bytes bytes read through the payload pointer; '-' if there was no callback
 //     R|<state_>|<next_byte_index_>|<current_message_size_>                      per Reset
 //     B|<buffer_ != nullptr>|<capacity_bytes_>|<state_>|<next_byte_index_>|<current_message_size_>   per SetBuffer
+//          F<path>:<off>:<len> : OnData() with bytes [off, off + len) of the file (for multi-megabyte streams); in the
+//                 answer a payload of more than 2^20 bytes is written as #<length>.<adler32>.<crc32> (decimal) after the
+//                 24 header bytes instead of its hex
+//   M <n> <schedule> <capacity> <mode> <ops> ... (n times): n <= 4 framer objects alive in this process at the same
+//                 time, each with its own buffer, callbacks and operations; schedule = digits, digit i = execute the next
+//                 operation of framer i (what is left runs afterwards framer by framer).  Answer: the n answers joined by
+//                 tab characters; each must be what `<capacity> <mode> <ops>` alone answers
 //   Both callback kinds (std::function and raw function pointer) are installed; they must see the same calls
 //   (otherwise the record carries "!cbmismatch").
 //
@@ -95,6 +102,36 @@ struct Recorder {
   int n_raw = 0;
 };
 
+// Digests of very large payloads (own implementations, independent of the code under test).
+static uint32_t adler32_of(const uint8_t* p, size_t n) {
+  uint32_t a = 1, b = 0;
+  for (size_t i = 0; i < n; ++i) {
+    a += p[i];
+    if (a >= 65521) a -= 65521;
+    b += a;
+    if (b >= 65521) b -= 65521;
+  }
+  return (b << 16) | a;
+}
+
+static uint32_t crc32_of(const uint8_t* p, size_t n) {
+  static uint32_t table[256];
+  static bool ready = false;
+  if (!ready) {
+    for (uint32_t i = 0; i < 256; ++i) {
+      uint32_t c = i;
+      for (int k = 0; k < 8; ++k) c = (c & 1) ? (0xEDB88320u ^ (c >> 1)) : (c >> 1);
+      table[i] = c;
+    }
+    ready = true;
+  }
+  uint32_t c = 0xFFFFFFFFu;
+  for (size_t i = 0; i < n; ++i) c = table[(c ^ p[i]) & 0xFF] ^ (c >> 8);
+  return c ^ 0xFFFFFFFFu;
+}
+
+static const size_t DIGEST_ABOVE = 1u << 20;  // payloads larger than this are recorded as length + digests
+
 static void record(Recorder* r, const MessageHeader& header, const void* payload) {
   if (!r->cbs.empty()) r->cbs.push_back(',');
   r->cbs += std::to_string((unsigned)(reinterpret_cast<uintptr_t>(&header) % 4));
@@ -110,7 +147,14 @@ static void record(Recorder* r, const MessageHeader& header, const void* payload
   put_le(&r->cbs, header.sequence_number, 4);
   put_le(&r->cbs, header.payload_size_bytes, 4);
   put_le(&r->cbs, header.source_identifier, 4);
-  put_hex(&r->cbs, static_cast<const uint8_t*>(payload), header.payload_size_bytes);
+  const uint8_t* q = static_cast<const uint8_t*>(payload);
+  if (header.payload_size_bytes > DIGEST_ABOVE) {
+    // every payload byte is still read through the pointer (ASan checks the range)
+    r->cbs += "#" + std::to_string(header.payload_size_bytes) + "." + std::to_string(adler32_of(q, header.payload_size_bytes)) +
+              "." + std::to_string(crc32_of(q, header.payload_size_bytes));
+  } else {
+    put_hex(&r->cbs, q, header.payload_size_bytes);
+  }
 }
 
 static void raw_cb(void* ctx, const MessageHeader&, const void*) { static_cast<Recorder*>(ctx)->n_raw++; }
@@ -120,48 +164,87 @@ static std::string state_of(const FusionEngineFramer& f) {
          std::to_string(f.current_message_size_);
 }
 
-static std::string run_request(const std::string& line) {
-  std::istringstream is(line);
-  std::string cap_s, mode, ops;
-  if (!(is >> cap_s >> mode >> ops)) return "bad-args";
-  size_t capacity = (size_t)strtoull(cap_s.c_str(), nullptr, 10);
+// Files named by F operations, read once per process.
+static const std::vector<uint8_t>* file_bytes(const std::string& path) {
+  static std::vector<std::pair<std::string, std::vector<uint8_t>>> cache;
+  for (auto& e : cache)
+    if (e.first == path) return &e.second;
+  FILE* f = fopen(path.c_str(), "rb");
+  if (!f) return nullptr;
+  std::vector<uint8_t> v;
+  uint8_t buf[1 << 16];
+  size_t n;
+  while ((n = fread(buf, 1, sizeof(buf), f)) > 0) v.insert(v.end(), buf, buf + n);
+  fclose(f);
+  cache.emplace_back(path, std::move(v));
+  return &cache.back().second;
+}
+
+// One framer object with its buffer, operations and record.
+struct Unit {
   uint8_t* block = nullptr;
   std::unique_ptr<FusionEngineFramer> framer;
-  if (mode == "i") {
-    framer.reset(new FusionEngineFramer(capacity));
-  } else {
-    int r = atoi(mode.c_str());
-    if (r < 0 || r > 3) return "bad-args";
-    block = static_cast<uint8_t*>(malloc(capacity + r));
-    if ((reinterpret_cast<uintptr_t>(block) & 3) != 0) return "bad-malloc-alignment";
-    framer.reset(new FusionEngineFramer(block + r, capacity));
-  }
   Recorder rec;
-  framer->SetMessageCallback([&rec](const MessageHeader& h, const void* p) {
-    rec.n_function++;
-    record(&rec, h, p);
-  });
-  framer->SetMessageCallback(raw_cb, &rec);
-  framer->WarnOnError(false);
+  std::vector<std::string> ops;
+  size_t next_op = 0;
+  std::string out;
+  std::string error;  // "bad-args" etc.
 
-  std::string out = "init|" + std::string(framer->buffer_ != nullptr ? "1" : "0") + "|" +
-                    std::to_string(framer->capacity_bytes_);
-  std::vector<uint8_t> data;
-  size_t pos = 0;
-  if (ops == "=") pos = std::string::npos;
-  while (pos != std::string::npos) {
-    size_t comma = ops.find(',', pos);
-    std::string op = ops.substr(pos, comma == std::string::npos ? std::string::npos : comma - pos);
-    pos = comma == std::string::npos ? comma : comma + 1;
+  bool construct(const std::string& cap_s, const std::string& mode, const std::string& ops_text) {
+    size_t capacity = (size_t)strtoull(cap_s.c_str(), nullptr, 10);
+    if (mode == "i") {
+      framer.reset(new FusionEngineFramer(capacity));
+    } else {
+      int r = atoi(mode.c_str());
+      if (mode.size() != 1 || r < 0 || r > 3) { error = "bad-args"; return false; }
+      block = static_cast<uint8_t*>(malloc(capacity + r));
+      if ((reinterpret_cast<uintptr_t>(block) & 3) != 0) { error = "bad-malloc-alignment"; return false; }
+      framer.reset(new FusionEngineFramer(block + r, capacity));
+    }
+    Recorder* rp = &rec;
+    framer->SetMessageCallback([rp](const MessageHeader& h, const void* p) {
+      rp->n_function++;
+      record(rp, h, p);
+    });
+    framer->SetMessageCallback(raw_cb, rp);
+    framer->WarnOnError(false);
+    out = "init|" + std::string(framer->buffer_ != nullptr ? "1" : "0") + "|" + std::to_string(framer->capacity_bytes_);
+    if (ops_text != "=") {
+      size_t pos = 0;
+      while (pos != std::string::npos) {
+        size_t comma = ops_text.find(',', pos);
+        ops.push_back(ops_text.substr(pos, comma == std::string::npos ? std::string::npos : comma - pos));
+        pos = comma == std::string::npos ? comma : comma + 1;
+      }
+    }
+    return true;
+  }
+
+  bool pending() const { return error.empty() && next_op < ops.size(); }
+
+  void on_data(const uint8_t* p, size_t n) {
+    uint8_t* exact = static_cast<uint8_t*>(malloc(n));
+    if (n) memcpy(exact, p, n);
+    rec.cbs.clear();
+    size_t ret = framer->OnData(exact, n);
+    free(exact);
+    out += (rec.cbs.empty() ? std::string("-") : rec.cbs) + "|" + std::to_string(ret) + "|" + state_of(*framer);
+    if (rec.n_function != rec.n_raw) out += "!cbmismatch";
+  }
+
+  // Executes the next operation.
+  void step() {
+    if (!pending()) return;
+    const std::string& op = ops[next_op++];
     out.push_back(';');
     if (op == "R") {
       framer->Reset();
       out += "R|" + state_of(*framer);
-      continue;
+      return;
     }
-    if (op[0] == 'B') {
+    if (!op.empty() && op[0] == 'B') {
       size_t colon = op.find(':');
-      if (colon == std::string::npos || op.size() < 2) return "bad-args";
+      if (colon == std::string::npos || op.size() < 2) { error = "bad-args"; return; }
       size_t c = (size_t)strtoull(op.c_str() + colon + 1, nullptr, 10);
       if (op[1] == 'i' && colon == 2) {
         framer->SetBuffer(nullptr, c);
@@ -172,7 +255,7 @@ static std::string run_request(const std::string& line) {
       } else if (op[1] == 'u' && colon == 3 && op[2] >= '0' && op[2] <= '3') {
         size_t k = (size_t)(op[2] - '0');
         uint8_t* fresh = static_cast<uint8_t*>(malloc(c + k));
-        if ((reinterpret_cast<uintptr_t>(fresh) & 3) != 0) return "bad-malloc-alignment";
+        if ((reinterpret_cast<uintptr_t>(fresh) & 3) != 0) { error = "bad-malloc-alignment"; return; }
         framer->SetBuffer(fresh + k, c);
         uintptr_t b = reinterpret_cast<uintptr_t>(framer->buffer_);
         uintptr_t lo = reinterpret_cast<uintptr_t>(fresh);
@@ -183,24 +266,73 @@ static std::string run_request(const std::string& line) {
           free(fresh);
         }
       } else {
-        return "bad-args";
+        error = "bad-args";
+        return;
       }
       out += "B|" + std::string(framer->buffer_ != nullptr ? "1" : "0") + "|" +
              std::to_string(framer->capacity_bytes_) + "|" + state_of(*framer);
-      continue;
+      return;
     }
-    if (!unhex(op, &data)) return "bad-args";
-    uint8_t* exact = static_cast<uint8_t*>(malloc(data.size()));
-    if (!data.empty()) memcpy(exact, data.data(), data.size());
-    rec.cbs.clear();
-    size_t ret = framer->OnData(exact, data.size());
-    free(exact);
-    out += (rec.cbs.empty() ? std::string("-") : rec.cbs) + "|" + std::to_string(ret) + "|" + state_of(*framer);
-    if (rec.n_function != rec.n_raw) out += "!cbmismatch";
+    if (!op.empty() && op[0] == 'F') {  // F<path>:<offset>:<length>
+      size_t c2 = op.rfind(':');
+      size_t c1 = c2 == std::string::npos || c2 == 0 ? std::string::npos : op.rfind(':', c2 - 1);
+      if (c1 == std::string::npos) { error = "bad-args"; return; }
+      const std::vector<uint8_t>* file = file_bytes(op.substr(1, c1 - 1));
+      size_t off = (size_t)strtoull(op.c_str() + c1 + 1, nullptr, 10);
+      size_t len = (size_t)strtoull(op.c_str() + c2 + 1, nullptr, 10);
+      if (file == nullptr || off > file->size() || len > file->size() - off) { error = "bad-file"; return; }
+      on_data(file->data() + off, len);
+      return;
+    }
+    std::vector<uint8_t> data;
+    if (!unhex(op, &data)) { error = "bad-args"; return; }
+    on_data(data.data(), data.size());
   }
-  framer.reset();
-  free(block);
-  return out;
+
+  std::string finish() {
+    framer.reset();
+    free(block);
+    block = nullptr;
+    return error.empty() ? out : error;
+  }
+};
+
+static std::string run_request(const std::string& line) {
+  std::istringstream is(line);
+  std::string first;
+  if (!(is >> first)) return "bad-args";
+  if (first == "M") {
+    // M <n> <schedule> (<capacity> <mode> <ops>) x n : n framer objects alive at the same time; schedule digit i = the
+    // next operation of framer i; the rest runs framer by framer.  Answers joined by tabs.
+    int n = 0;
+    std::string sched;
+    if (!(is >> n >> sched) || n < 1 || n > 4) return "bad-args";
+    std::vector<std::unique_ptr<Unit>> units;
+    for (int i = 0; i < n; ++i) {
+      std::string cap_s, mode, ops;
+      if (!(is >> cap_s >> mode >> ops)) return "bad-args";
+      units.emplace_back(new Unit());
+      units.back()->construct(cap_s, mode, ops);
+    }
+    for (char c : sched) {
+      int i = c - '0';
+      if (i >= 0 && i < n) units[i]->step();
+    }
+    for (auto& u : units)
+      while (u->pending()) u->step();
+    std::vector<std::string> texts(n);
+    for (int i = n - 1; i >= 0; --i) texts[i] = units[i]->finish();
+    std::string r;
+    for (int i = 0; i < n; ++i) r += (i ? "\t" : "") + texts[i];
+    return r;
+  }
+  std::string mode, ops;
+  if (!(is >> mode >> ops)) return "bad-args";
+  Unit u;
+  if (u.construct(first, mode, ops)) {
+    while (u.pending()) u.step();
+  }
+  return u.finish();
 }
 
 int main() {
@@ -221,7 +353,8 @@ int main() {
       FILE* w = fdopen(fd[1], "w");
       for (size_t i = start; i < lines.size(); ++i) {
         fprintf(stderr, "@request %zu\n", i);
-        alarm(10);  // a framer that does not terminate kills this child with SIGALRM
+        // a framer that does not terminate kills this child with SIGALRM (requests that read multi-megabyte files get longer)
+        alarm(lines[i].find(",F") != std::string::npos || lines[i].find(" F") != std::string::npos ? 180 : 10);
         std::string a = run_request(lines[i]);
         alarm(0);
         fprintf(w, "%zu %s\n", i, a.c_str());
